@@ -913,7 +913,7 @@ int main(int argc, char **argv)
     NOPS = 0;
     static const char base6[] = "nOAoar";
     for (int i = 0; i < 6; i++) OPS[NOPS++] = (op_t) base6[i];
-    if (P_C11) OPS[NOPS++] = 'w';
+    if (P_C11) { OPS[NOPS++] = 'w'; OPS[NOPS++] = 'R'; }      /* any preceding navigation history includes abandoning a traversal with reset */
     if (P_C06) { OPS[NOPS++] = 'R'; OPS[NOPS++] = 'V'; }
     if (P_C06) { for (int i = 0; i < NOPS; i++) OPS_LOOKUP[NOPS_LOOKUP++] = OPS[i]; for (int q = 0; q < NQ; q++) OPS_LOOKUP[NOPS_LOOKUP++] = (op_t) (0x80 | q); }
     if (P_C07) for (int v = 0; v < 4; v++) for (int q = 0; q < NQ; q++) OPS[NOPS++] = (op_t) (0x80 | (v << 5) | q);
